@@ -107,3 +107,33 @@ example : (Predictor.new {} C11_exNoWeights true).map (fun _ => ()) = .err .inva
 example : (Predictor.new {} C11_exNoWeights false).isOk = true := by decide
 
 end V
+
+namespace V
+
+/-- **end to end** (C09 ∘ C11 ∘ C01): for windows ≥ 1, the PREDICTOR built from the model that training returns — in every
+build configuration, with or without tag prediction — reports, for every boundary of every non-empty text, exactly the learned
+quantised bias plus the learned quantised weight of each feature the trainer extracts for that boundary -/
+theorem C11_trained_predictor_scores (tc : TrainCfg) (hc : CfgOK tc) (hcw : 1 ≤ tc.charW ∧ tc.charW ≤ 255)
+    (htw : 1 ≤ tc.typeW ∧ tc.typeW ≤ 255) (hlen : ∀ w ∈ tc.dictWords, w.length ≤ 32767)
+    (trace : List (Feature × Int)) (bias : Int) (tms : List TagModel)
+    (hnd : (trace.map Prod.fst).Nodup) (hg : ∀ e ∈ trace, Generable tc e.1) (m : WModel)
+    (h : assembleBoundary tc trace bias tms = .ok m)
+    (cfg : Cfg) (pt : Bool) (p : Predictor) (hp : Predictor.new cfg m pt = .ok p)
+    (s : Sentence) (hs : SentOK s) (pid : Nat) :
+    ∃ s', p.predict pid s = .ok s' ∧
+      s'.boundaryScores = .ok ((List.range (s.text.length - 1)).map fun b =>
+        bias + ((genFeatures tc s.text b).map (wqOf trace)).sum) := by
+  have hwf : WFModel m := C11_assembled_wf tc hc hcw htw hlen trace bias tms hg m h
+  obtain ⟨s', h1, h2, _⟩ := C01_scores cfg m hwf pt p hp s hs pid
+  refine ⟨s', h1, ?_⟩
+  rw [h2]
+  congr 1
+  unfold specScores
+  apply List.map_congr_left
+  intro b hb
+  have hb' : b + 1 < s.text.length := by
+    have := List.mem_range.mp hb
+    omega
+  exact C09_scores tc hc trace bias tms hnd hg m h s.text b hb'
+
+end V
